@@ -112,10 +112,11 @@ class Enum:
 
 
 class Struct:
-    __slots__ = ("fields",)
+    __slots__ = ("fields", "closure")
 
     def __init__(self, fields):
         self.fields = list(fields)
+        self.closure = None
 
     def __repr__(self):
         return "struct%s" % (self.fields,)
@@ -151,7 +152,12 @@ class Evaluator:
 
     def project(self, fr, val, proj, key):
         for e in proj:
+            if isinstance(e, tuple):
+                e = list(e)      # projections stored inside a reference key are tuples
             if e == "*":
+                if isinstance(val, tuple) and len(val) == 3 and val[0] == "const" and str(val[1]).startswith('b"'):
+                    val = parse_byte_string(val[1])     # a byte-string literal: the pointee is the array of its bytes
+                    continue
                 if not isinstance(val, Ref):
                     raise Unsupported("deref of non-reference %r" % (val,))
                 k = val.key
@@ -181,6 +187,13 @@ class Evaluator:
                         raise Unsupported("downcast to wrong variant")
                 else:
                     raise Unsupported("downcast of %r" % (val,))
+            elif isinstance(e, list) and e[0] == "[]":
+                i = fr.env.get(e[1], UNKNOWN)
+                if isinstance(val, ExtPlace):
+                    val = self.ext(val.path)
+                if not isinstance(i, int) or not isinstance(val, (tuple, list)) or not 0 <= i < len(val):
+                    raise Unsupported("index %r of %r" % (i, val))
+                val = val[i]
             else:
                 raise Unsupported("projection %r" % (e,))
         if isinstance(val, ExtPlace):
@@ -257,6 +270,9 @@ class Evaluator:
         if "v" in c:
             return int(c["v"])
         if "item" in c:
+            v = self.const_item(c["item"])
+            if v is not UNKNOWN:
+                return v
             f2 = self.prog.fn(c["item"])
             if f2 is not None:
                 return self.call_fn(f2, [])
@@ -267,7 +283,39 @@ class Evaluator:
             return float(s)
         except ValueError:
             pass
+        if "::" in s and not s.startswith('b"'):
+            v = self.const_item(s.split(":: ")[0].strip())
+            if v is not UNKNOWN:
+                return v
         return ("const", s, c.get("ty"))
+
+    def const_item(self, path):
+        """the value rustc evaluated for a named constant (numbers and nested arrays of numbers only)"""
+        from . import constval
+        try:
+            cr = self.prog.crate(path.split("::")[0])
+        except Exception:
+            return UNKNOWN
+        k = getattr(cr, "consts", {}).get(path) if cr is not None else None
+        if k is None or "value" not in k:
+            return UNKNOWN
+        try:
+            v = constval.parse(k["value"])
+        except ValueError:
+            return UNKNOWN
+
+        def conv(x):
+            if isinstance(x, (bytes, bytearray)):
+                return tuple(x)
+            if isinstance(x, list):
+                return tuple(conv(y) for y in x)
+            if isinstance(x, (int, float)) and not isinstance(x, bool):
+                return x
+            raise ValueError
+        try:
+            return conv(v)
+        except ValueError:
+            return UNKNOWN
 
     def binop(self, op, a, b):
         if isinstance(a, NonZero) or isinstance(b, NonZero):
@@ -325,6 +373,14 @@ class Evaluator:
             if rv[1] in ("IntToInt", "IntToFloat", "FloatToFloat", "Transmute", "PtrToPtr", "Subtype") or rv[1].startswith("Coerce"):
                 if rv[1] == "IntToInt" and isinstance(v, int) and rv[3] in ("u8", "u16", "u32", "u64", "usize") and v < 0:
                     raise Unsupported("negative to unsigned cast")
+                if rv[1] == "IntToInt" and isinstance(v, int) and not isinstance(v, bool):
+                    bits = {"u8": 8, "u16": 16, "u32": 32, "i8": 8, "i16": 16, "i32": 32}.get(rv[3])
+                    if bits and not -(1 << (bits - 1)) <= v < (1 << bits):
+                        v &= (1 << bits) - 1         # a narrowing cast keeps the low bits
+                        if rv[3].startswith("i") and v >= 1 << (bits - 1):
+                            v -= 1 << bits
+                    elif bits and rv[3].startswith("i") and v >= 1 << (bits - 1):
+                        v -= 1 << bits
                 return v
             if rv[1] == "FloatToInt" and isinstance(v, float):
                 return int(v)
@@ -341,10 +397,24 @@ class Evaluator:
                     return -v
                 if isinstance(v, Affine):
                     return Affine.const(0) - v
+            if rv[1] == "PtrMetadata":
+                w = self.deref_val(v) if isinstance(v, Ref) else v
+                if isinstance(w, (tuple, list)):
+                    return len(w)
             raise Unsupported("unop %s on %r" % (rv[1], v))
         if k == "discr":
             v = self.read_place(fr, rv[1])
             if isinstance(v, Enum):
+                a = self.adt(v.adt) if "::" in str(v.adt) and not str(v.adt).startswith("core::") else None
+                try:
+                    dv = a["variants"][v.idx].get("discr") if a else None
+                except (IndexError, KeyError, TypeError):
+                    dv = None
+                if dv is not None:
+                    try:
+                        return int(dv)       # explicit discriminant (`Pq = 16`)
+                    except (TypeError, ValueError):
+                        pass
                 return v.idx
             if isinstance(v, ExtPlace):
                 d = self.ext(v.path + ("#discr",))
@@ -364,7 +434,9 @@ class Evaluator:
             if kind[0] == "array":
                 return tuple(ops)
             if kind[0] == "closure":
-                return Struct(ops)      # the captured variables, in capture order
+                st = Struct(ops)      # the captured variables, in capture order
+                st.closure = kind[1]
+                return st
             raise Unsupported("aggregate %s" % kind[0])
         raise Unsupported("rvalue %s" % k)
 
@@ -411,13 +483,59 @@ class Evaluator:
                 r = args[0] - args[1] if "sub" in meth else args[0] + args[1]
                 lo, hi = (0, (1 << bits) - 1) if ity.startswith("u") else (-(1 << (bits - 1)), (1 << (bits - 1)) - 1)
                 return max(lo, min(hi, r))
+            if bits and meth in ("to_be_bytes", "to_le_bytes") and len(args) == 1:
+                v = args[0] & ((1 << bits) - 1)
+                bs = [(v >> (8 * i)) & 255 for i in range(bits // 8)]
+                return tuple(reversed(bs)) if meth == "to_be_bytes" else tuple(bs)
             if meth in ("min", "max") and len(args) == 2:
                 return min(args) if meth == "min" else max(args)
         if short.startswith("core::num::<impl ") and short.endswith(("::wrapping_sub", "::wrapping_add", "::saturating_sub")):
             op = "Sub" if "sub" in short else "Add"
             return self.binop(op, args[0], args[1])
+        if short.startswith("core::option::Option::<T>::") and args and isinstance(args[0], Enum):
+            meth = short.split("::")[-1]
+            o = args[0]
+            some = o.name == "Some" or (o.name not in ("Some", "None") and o.idx == 1)
+            if meth in ("unwrap_or", "unwrap_or_default", "unwrap", "expect") and (some or meth == "unwrap_or"):
+                return o.fields[0] if some else args[1]
+            if meth == "unwrap_or_default" and not some and c.get("args") and c["args"][0] in ("u8", "u16", "u32", "u64", "usize", "i8", "i16", "i32", "i64", "isize"):
+                return 0
+            if meth in ("is_some", "is_none"):
+                return int(some == (meth == "is_some"))
+            if meth == "map" and len(args) == 2:
+                if not some:
+                    return o
+                cl = args[1]
+                f3 = self.prog.fn(getattr(cl, "closure", "") or "")
+                if f3 is not None:
+                    return Enum(o.adt, o.idx, o.name, [self.call_fn(f3, [cl, o.fields[0]])])
+        if short.endswith("RangeInclusive::<Idx>::new") and len(args) == 2:
+            return ("rangei", args[0], args[1])
+        if short.startswith("core::ops::range::Range") and short.split("::<")[0].endswith("Range") is False and short.endswith("::contains") and len(args) == 2:
+            rg, x = self.deref_val(args[0]), self.deref_val(args[1])
+            if isinstance(rg, Struct) and len(rg.fields) == 2:
+                lo, hi, incl = rg.fields[0], rg.fields[1], False
+            elif isinstance(rg, tuple) and len(rg) == 3 and rg[0] == "rangei":
+                lo, hi, incl = rg[1], rg[2], True
+            else:
+                raise Unsupported("contains on %r" % (rg,))
+            if all(isinstance(q, int) for q in (lo, hi, x)):
+                return int(lo <= x <= hi) if incl else int(lo <= x < hi)
+            raise Unsupported("contains with non-integer bounds")
+        if short.split("::<")[0] in ("core::cmp::Ord::min", "core::cmp::Ord::max", "core::cmp::min", "core::cmp::max") and len(args) == 2:
+            a, b = self.deref_val(args[0]), self.deref_val(args[1])
+            if all(isinstance(q, (int, float)) and not isinstance(q, bool) for q in (a, b)):
+                return min(a, b) if short.split("::<")[0].endswith("min") else max(a, b)
         if short.endswith("::abs_diff"):
+            if len(args) == 2 and all(isinstance(a, int) and not isinstance(a, bool) for a in args):
+                return abs(args[0] - args[1])
             raise Unsupported("abs_diff")
+        if short == "core::mem::swap" and len(args) == 2 and all(isinstance(a, Ref) and a.key[0] == "local" for a in args):
+            va, vb = self.deref_val(args[0]), self.deref_val(args[1])
+            for r, v in ((args[0], vb), (args[1], va)):
+                f2 = self.frames[r.key[1]]
+                self.write_place(f2, [r.key[2]] + [list(x) if isinstance(x, tuple) else x for x in r.key[3:]], v)
+            return ()
         raise Unsupported("call to %s" % short)
 
     def deref_val(self, v):
@@ -525,6 +643,29 @@ class Evaluator:
                 raise Unsupported("unreachable reached in %s" % fn.path)
             else:
                 raise Unsupported("terminator %s" % k)
+
+
+def parse_byte_string(s):
+    """the bytes of a Rust byte-string literal as rustc prints it (b"..." with \\xNN, \\n, \\r, \\t, \\0, \\\\, \\", \\' escapes)"""
+    body = s[2:-1]
+    out, i = [], 0
+    esc = {"n": 10, "r": 13, "t": 9, "0": 0, "\\": 92, '"': 34, "'": 39}
+    while i < len(body):
+        ch = body[i]
+        if ch == "\\":
+            nx = body[i + 1]
+            if nx == "x":
+                out.append(int(body[i + 2:i + 4], 16))
+                i += 4
+            elif nx in esc:
+                out.append(esc[nx])
+                i += 2
+            else:
+                raise Unsupported("escape in byte string %r" % s)
+        else:
+            out.extend(ch.encode("utf-8"))
+            i += 1
+    return tuple(out)
 
 
 class _Stop(Exception):
